@@ -16,6 +16,11 @@ s='''// ------------------------------------------------------------------------
 // Trusted facts about strconv (its parsers are outside the verified code).
 //@ axiom parsefloat_accepts_decimal_digits: forallstr(s, imp(scan.ClassStr(s) == 1 || scan.ClassStr(s) == 2, ext[error]("strconv.ParseFloat", 1, s, 64) == nil))
 
+// strconv accepts every non-empty run of at most 16 hex digits as an unsigned 64-bit value, and as
+// a signed one when it has at most 15 digits or 16 digits the first of which is 0..7 (trusted).
+//@ axiom parseuint_hex16: forallstr(s, imp(1 <= len(s) && len(s) <= 16 && allChars(s, 0, scan.IsHexByte), ext[error]("strconv.ParseUint", 1, s, 16, 64) == nil))
+//@ axiom parseint_hex63: forallstr(s, imp(1 <= len(s) && (len(s) <= 15 || (len(s) == 16 && s[0] >= '0' && s[0] <= '7')) && allChars(s, 0, scan.IsHexByte), ext[error]("strconv.ParseInt", 1, s, 16, 64) == nil))
+
 //@ properties C06 C03 C18
 
 //@ func (*Mlrval).SetFromString
@@ -56,7 +61,7 @@ inf("inferDecimalInt", 1, ["MT_INT","MT_FLOAT"])      # documented: an int that 
 inf("inferLeadingZeroDecimalIntAsInt", 2, ["MT_INT","MT_FLOAT"])
 inf("inferOctalInt", 3, ["MT_INT"]+STRK)
 inf("inferFromLeadingZeroOctalIntAsInt", 4, ["MT_INT"]+STRK)
-inf("inferHexInt", 5, ["MT_INT"]+STRK)
+inf("inferHexInt", 5, ["MT_INT"]+STRK, extra=['imp(len(old(mv.printrep)) - ite(old(mv.printrep)[0] == \'-\' || old(mv.printrep)[0] == \'+\', 3, 2) <= 16, mv.mvtype == MT_INT)'])
 inf("inferBinaryInt", 6, ["MT_INT"]+STRK)
 inf("inferMaybeFloat", None, ["MT_FLOAT"]+STRK, extra=['imp(ext[error]("strconv.ParseFloat", 1, old(mv.printrep), 64) == nil, mv.mvtype == MT_FLOAT)'])
 inf("inferString", None, STRK, extra=['mv.mvtype == ite(old(mv.printrep) == "", MT_VOID, MT_STRING)'])
